@@ -307,6 +307,9 @@ def run(world, rep, tier, only=None):
                (n.where(), "; ".join(KNOWN_UNUSED.get(c, "NOT LISTED") for c in cn)))
     rep.ob("C01.f", "e2fsck:*:prompting answers used", True, "%d prompting call sites examined, %d discard the answer" % (n_sites, len(unused)))
 
+    # ------------------------------------------------------------------ C01.i inode release routines consider the xattr block
+    inode_release_rules(world, prog, rep, "C01.i")
+
     # ------------------------------------------------------------------ C01.h removing the orphan file releases its inode
     orphan_removal_rules(world, rep, "C01.h")
 
@@ -364,6 +367,49 @@ def orphan_removal_rules(world, rep, rule):
                        "after a successful ext2fs_truncate_orphan_file() every path reaches ext2fs_inode_alloc_stats2(…, -1, …) "
                        "or ext2fs_create_orphan_file() before leaving: %s" % [e.where() for e in ends[:2]])
     rep.floor("%s orphan file removal sites" % rule, n_sites, 3)
+
+
+def inode_release_rules(world, prog, rep, rule):
+    """routines that give an inode's resources back (pass 2 deallocate_inode, pass 1b delete_file, orphan
+    release) consider the xattr block on every path on which they complete: the external attribute block
+    is owned by inodes that map no data blocks too"""
+    SITES = [("e2fsck/pass2.c", "deallocate_inode", ("e2fsck_clear_inode",)),
+             ("e2fsck/pass1b.c", "delete_file", ("e2fsck_clear_inode", "delete_file_block")),
+             ("e2fsck/super.c", "release_inode_blocks", ())]
+    for (file, fname, completions) in SITES:
+        fn = prog.fn(fname, file)
+        acl = [fn.block_end(b) for b in fn.blocks if fn.literal(b) and
+               any(c.get("fn") == "ext2fs_file_acl_block" for c in T.calls(resolve_local(fn, fn.literal(b)[0])))]
+        acl += [n for n in fn.events("S") if any(c.get("fn") == "ext2fs_file_acl_block" for c in T.calls(n.ev.get("rhs") or {}))]
+        adj = calls_to(fn, "ext2fs_adjust_ea_refcount3", "ext2fs_adjust_ea_refcount2")
+        rep.ob(rule, site(fn, "xattr block released"), bool(acl) and bool(adj),
+               "%s tests ext2fs_file_acl_block() and drops the EA block's reference" % fname)
+        if "e2fsck_clear_inode" in completions and fname == "deallocate_inode":
+            ends = [n for n in fn.call_nodes() if n.ev["x"].get("fn") == "e2fsck_clear_inode"]
+        else:
+            ends = []
+            for n in fn.events("R"):
+                x = n.ev.get("x")
+                if x is None or T.const(x) == 0:
+                    ends.append(n)
+            if fn.raw.get("ret") == "void":
+                ends.append(fn.exit_node())
+        noret = prog.noreturn_nodes(fn)
+        r = fn.reach([fn.entry_node()], avoid=set(acl) | noret)
+        skipped = [e for e in ends if e in r]
+        # early exits taken before anything was released are fine: only those after the inode was freed count
+        freed = calls_to(fn, "ext2fs_inode_alloc_stats2", "ext2fs_block_iterate3", "ext2fs_punch")
+        real = []
+        for e in skipped:
+            if not freed or any(e in fn.reach(fn.after(f), avoid=set(acl) | noret) for f in freed):
+                real.append(e)
+        wit = None
+        if real:
+            pth = fn.witness_path([fn.entry_node()], real, avoid=set(acl) | noret)
+            wit = line_path(pth) if pth else None
+        rep.ob(rule, site(fn, "xattr block considered on every completing path"), not real,
+               "no path on which the inode's other resources are released reaches the end of %s without testing "
+               "ext2fs_file_acl_block()" % fname, wit)
 
 
 def _sets_flag(n, macro):
